@@ -144,6 +144,7 @@ LAYOUT_TEMPLATES = [
     "function m(a, b) {\n  for (let i = a + 1; i < b; i += a) {\n    x(a + i);\n  }\n  while (a.trim())\n    a = a + b;\n}\n",
     "function m(a, b) { return a + b; } function n(c) { return `${c}`; }\nconst q = (x) => x + 1;\n",
     "function m(a, b) {\n  x();\n  a?.trim().foo(b);\n  y();\n  b.q?.concat(a,\n    1)?.z;\n  return a?.b.trim()\n    .c;\n}\n",
+    "\ufefffunction m(a, b) { const v = a + b(); return v; }\nfunction n(c) {\n  return `${c}` + c.trim();\n}\n",
 ]
 
 REF_KINDS = ["none", "inline", "external_rel", "external_abs", "missing", "eisdir", "eacces", "bad_base64",
